@@ -80,7 +80,7 @@ fn drive(cx: &mut Ctx, s: usize, h: &Hist, phase: u64) {
         _ => {
             // insert fresh keys until a resize is pending (at most a few doublings)
             let mut guard = 0;
-            while cx.maps[s].as_ref().unwrap().verif_state().old.is_none() && guard < 400 {
+            while cx.maps[s].as_ref().unwrap().verif_state().old.is_none() && guard < 400 && !cx.abort {
                 let k = fresh_key(cx, s, h);
                 op_insert(cx, s, k, None);
                 guard += 1;
@@ -221,7 +221,7 @@ pub fn history(cx: &mut Ctx, family: &str, maxops: u64) {
             op_new(cx, 0, HB { kind: 3, id: 3 }, 0);
             let target = maxops;
             let mut next = 0u64;
-            while (cx.maps[0].as_ref().unwrap().len() as u64) < target {
+            while (cx.maps[0].as_ref().unwrap().len() as u64) < target && !cx.abort {
                 match cx.rng.below(40) {
                     0 => { let k = cx.rng.below(next + 1); op_remove(cx, 0, false, k); }
                     1 => { let k = cx.rng.below(next + 1); let v = cx.rng.below(3); op_get(cx, 0, v, k); }
@@ -240,6 +240,9 @@ pub fn history(cx: &mut Ctx, family: &str, maxops: u64) {
     cx.bump(&format!("phase:{}", phase));
     let nops = maxops / 2 + cx.rng.below(maxops / 2 + 1);
     for _ in 0..nops {
+        if cx.abort {
+            return;
+        }
         let live = live_slots(cx);
         if live.is_empty() {
             let hb2 = hb_for(cx, kinds);
